@@ -312,15 +312,15 @@ impl<E: Endianness> MemFactory<E> {
     }
 }
 impl CodesReaderFactory<BE> for MemFactory<BE> {
-    type CodesReader<'a> = BufBitReader<BE, MemWordReader<u32, &'a [u32]>> where Self: 'a;
+    type CodesReader<'a> = BufBitReader<BE, MemWordReader<u32, &'a [u32], false>> where Self: 'a;
     fn new_reader(&self) -> Self::CodesReader<'_> {
-        BufBitReader::<BE, _>::new(MemWordReader::new(&self.data[..]))
+        BufBitReader::<BE, _>::new(MemWordReader::new_strict(&self.data[..]))
     }
 }
 impl CodesReaderFactory<LE> for MemFactory<LE> {
-    type CodesReader<'a> = BufBitReader<LE, MemWordReader<u32, &'a [u32]>> where Self: 'a;
+    type CodesReader<'a> = BufBitReader<LE, MemWordReader<u32, &'a [u32], false>> where Self: 'a;
     fn new_reader(&self) -> Self::CodesReader<'_> {
-        BufBitReader::<LE, _>::new(MemWordReader::new(&self.data[..]))
+        BufBitReader::<LE, _>::new(MemWordReader::new_strict(&self.data[..]))
     }
 }
 
@@ -335,7 +335,8 @@ macro_rules! impl_dispatch {
         pub mod $modname {
             use super::*;
             pub type DW = BufBitWriter<$E, MemWordWriterVec<u64, Vec<u64>>>;
-            pub type DR<'a> = BufBitReader<$E, MemWordReader<u32, &'a [u32]>>;
+            // strict backend: a dispatcher that reads garbage ends with an error instead of looping on zeros
+            pub type DR<'a> = BufBitReader<$E, MemWordReader<u32, &'a [u32], false>>;
 
             /// write `pre` bits of 0b101.., then v through the dispatcher, then a 9-bit sentinel
             pub fn write(how: Disp, code: Code, id: Option<usize>, pre: usize, v: u64) -> R<(Vec<u8>, usize)> {
@@ -386,7 +387,7 @@ macro_rules! impl_dispatch {
                 let words: Vec<u32> = crate::adapters::words_of::<u32>(&b);
                 let codes = to_codes(code);
                 let fac = MemFactory::<$E>::new(words.clone());
-                let mut r: DR = BufBitReader::new(MemWordReader::new(&words[..]));
+                let mut r: DR = BufBitReader::new(MemWordReader::new_strict(&words[..]));
                 r.skip_bits(pre).map_err(es)?;
                 let value = match how {
                     Disp::CodesInherent => codes.ok_or("no enum variant")?.read(&mut r).map_err(es)?,
